@@ -272,7 +272,16 @@ impl Property for C07 {
     fn generate(&self, seed: u64, run: u64, tier: Tier, avoid: &BTreeSet<String>) -> MacCase {
         // one run in five borrows another property"s generator (same case type), so that this oracle also
         // judges histories of shapes its own generator does not produce
-        if let Some(c) = super::cross_generate("C07", &["C04", "C05", "C08", "C09", "C10", "C11", "C12"], seed, run, tier, avoid) {
+        if let Some(mut c) = super::cross_generate("C07", &["C04", "C05", "C08", "C09", "C10", "C11", "C12"], seed, run, tier, avoid) {
+            // radio faults are addressed by call position, and a removed frame shifts the positions: the twin
+            // comparison is only meaningful without them
+            for op in c.ops.iter_mut() {
+                match op {
+                    Op::Join(t) | Op::Send { txn: t, .. } => t.fault = None,
+                    Op::Listen { fault, .. } => *fault = None,
+                    _ => {}
+                }
+            }
             return c;
         }
         self.own_generate(seed, run, tier, avoid)
@@ -443,6 +452,9 @@ impl C07 {
             }
             if nb {
                 t.nb_deferred_tx = r.chance(1, 5);
+                if r.chance(1, 8) {
+                    t.nb_intrude = (r.range(1, 3) as u8) | ((r.below(3) as u8) << 2);
+                }
             }
             ops.push(Op::Send { port: r.range(1, 223) as u8, len: send_len(&mut r), confirmed: r.chance(1, 4), txn: t });
         }
